@@ -693,6 +693,24 @@ def self_test(pid, scratch):
             cases.append((os.path.basename(d), os.path.join(d, 'patch.diff'), 'violation'))
     for p in sorted(glob.glob(os.path.join(HERE, 'harmless', 'h*.diff'))):
         cases.append((os.path.basename(p), p, 'no-alarm'))
+    # the oracles of the witness families must not flag the unchanged tree
+    try:
+        import witness
+        seen_f, flagged, tried = set(), [], 0
+        for key, fam in list(witness.CANNED.items()) + list(witness.GENERATED.items()):
+            ident = id(fam) if callable(fam) else key
+            if ident in seen_f:
+                continue
+            seen_f.add(ident)
+            pf = dict(id='selftest', clause=key, kind='selftest')
+            witness.find(pid, pf, REPO, scratch)
+            tried += (pf.get('witness_search') or {}).get('requests', 0)
+            if pf.get('replayed'):
+                flagged.append((key, pf['witness']['public_api_input']))
+        results.append(dict(case='witness-family oracles on the unchanged tree', expect='no input flagged', outcome='%d requests, %d flagged %s' % (tried, len(flagged), flagged[:3]),
+                            ok=not flagged))
+    except Exception as ex_:
+        results.append(dict(case='witness-family oracles on the unchanged tree', expect='no input flagged', outcome='error: %s' % ex_, ok=False))
     for name, patch, expect in cases:
         work = os.path.join(scratch, 'selftest_' + re.sub(r'\W', '_', name))
         os.makedirs(work)
